@@ -458,6 +458,24 @@ Fixpoint run_kx (tr : list instr -> list instr) (v : ver) (k : nat) (s : st) (i 
   end.
 Definition crashx (tr : list instr -> list instr) (v : ver) (k : nat) (hist : list op) : st := recover (run_kx tr v k init 0 hist).
 
+(* ---------- rip_log::write_snapshot (the file only; its relation to the log is checked by the harness oracle) ----------
+   File::create (truncates), BufWriter::new, ONE write_all of the whole pretty-printed JSON array, flush.  A snapshot
+   file is absent, or holds a list of chunks; the payload is what the one write_all hands over *)
+Inductive sinstr := SPt (tag : N) | SCreate | SWrite (cs : list chunk) | SFlush.
+Definition sexec (st : option (list chunk) * bufw) (i : sinstr) : option (list chunk) * bufw :=
+  match i with
+  | SPt _ => st
+  | SCreate => (Some [], bw_empty)
+  | SWrite cs => let r := bw_write (match fst st with Some f => f | None => [] end) (snd st) cs (clen cs) in (Some (fst r), snd r)
+  | SFlush => let r := bw_flush (match fst st with Some f => f | None => [] end) (snd st) in (Some (fst r), snd r)
+  end.
+Definition snap_prog (payload : list chunk) : list sinstr := [SCreate; SPt 71; SWrite payload; SPt 72; SFlush; SPt 73].
+(* the file after the process died having executed the first k instructions (the BufWriter is gone) *)
+Definition snap_crash (old : option (list chunk)) (payload : list chunk) (k : nat) : option (list chunk) :=
+  fst (fold_left sexec (firstn k (snap_prog payload)) (old, bw_empty)).
+Definition sinstr_code (i : sinstr) : list N :=
+  match i with SPt t => [t] | SCreate => [140] | SWrite _ => [141] | SFlush => [142] end.
+
 (* ---------- correspondence ---------- *)
 Definition is_pt (i : instr) : option N := match i with IPt t => Some t | _ => None end.
 
